@@ -26,7 +26,7 @@ func init() {
 		Phases: func(tier string, seed int64) []Phase {
 			return []Phase{{Name: "matrix", Run: c08Run}}
 		},
-		MinObserved: []string{"connections_checked", "onclose_events", "handler_exits_recorded", "eof_withheld_until_release_observed", "just_dispatched_endings_checked", "endings_with_a_starttls_handshake_pending", "connections_closed_while_another_connection_waits_for_its_handler"},
+		MinObserved: []string{"connections_checked", "onclose_events", "handler_exits_recorded", "eof_withheld_until_release_observed", "just_dispatched_endings_checked", "endings_with_a_starttls_handshake_pending", "connections_closed_while_another_connection_waits_for_its_handler", "connections_with_failed_writes_next_to_a_parked_handler"},
 	})
 }
 
@@ -516,6 +516,75 @@ func c08Independence(c *Ctx, wd *c08World, round int) {
 	a.Close()
 }
 
+// c08WriteFault: a response write fails on a live connection (its write deadline has passed) while another handler of
+// that connection is parked. A failed write is the failing handler's problem: the socket stays open until the
+// connection really ends, and then it is closed - and reported - only after the parked handler has returned.
+func c08WriteFault(c *Ctx, wd *c08World, round int) {
+	srv, err := startSrv(SrvCfg{WriteTimeout: 300 * time.Millisecond}, wd.register)
+	if err != nil {
+		c.Inconclusive("server start: " + err.Error())
+		return
+	}
+	defer srv.StopWithin(patience)
+	tag := fmt.Sprintf("t%d", c08TagCtr.Add(1))
+	cn, err := net.Dial("tcp", srv.Addr)
+	if err != nil {
+		c.Inconclusive("write fault: connect")
+		return
+	}
+	defer cn.Close()
+	cl := wrapClient(cn)
+	cl.Send(c08Search(2, tag+";quick"))
+	if m, err := cl.ReadMsg(patience); err != nil || m.ID != 2 {
+		c.Inconclusive("write fault: first round trip")
+		return
+	}
+	t := wd.track(tag)
+	t.mu.Lock()
+	connID := t.connID
+	t.mu.Unlock()
+	cl.Send(c08Search(10, tag+";park"))
+	for dl := time.Now().Add(patience); t.entered.Load() < 2 && time.Now().Before(dl); time.Sleep(100 * time.Microsecond) {
+	}
+	time.Sleep(450 * time.Millisecond) // the connection's write deadline has passed
+	for k := 0; k < 1+round%3; k++ {
+		cl.Send(c08Search(int64(30+k), tag+";quick")) // these handlers' writes fail
+	}
+	for dl := time.Now().Add(5 * time.Second); t.entered.Load() < int64(3+round%3) && time.Now().Before(dl); time.Sleep(200 * time.Microsecond) {
+	}
+	cn.SetReadDeadline(time.Now().Add(700 * time.Millisecond))
+	buf := make([]byte, 4096)
+	early := false
+	for {
+		_, err := cn.Read(buf)
+		if err == nil {
+			continue
+		}
+		early = !isTimeout(err)
+		break
+	}
+	if early {
+		c.Violate("socket closed before the connection's handlers returned", fmt.Sprintf("connection %d: response writes failed (write timeout) while a handler was parked; the client saw the socket closed before the parked handler was released", connID), map[string]any{"round": round})
+	}
+	releaseSeq := nextSeq()
+	close(t.gate)
+	closeWrite(cn)
+	var mine []closeEv
+	for dl := time.Now().Add(patience); time.Now().Before(dl) && len(mine) == 0; time.Sleep(300 * time.Microsecond) {
+		for _, ev := range srv.Closes() {
+			if ev.ID == connID {
+				mine = append(mine, ev)
+			}
+		}
+	}
+	if len(mine) == 0 {
+		c.Violate("OnClose not called for an ended connection", fmt.Sprintf("connection %d after write faults", connID), nil)
+	} else if mine[0].Enter < releaseSeq {
+		c.Violate("OnClose called before a handler of that connection returned", fmt.Sprintf("connection %d: OnClose stamp %d precedes the release of its parked handler (%d); response writes had failed before", connID, mine[0].Enter, releaseSeq), nil)
+	}
+	c.Count("connections_with_failed_writes_next_to_a_parked_handler", 1)
+}
+
 func c08Run(c *Ctx) { c08RunWith(c, 0, 0) }
 
 // c08RunWith runs the matrix; writeEntries > 0 shrinks the "writing" handlers' output
@@ -603,6 +672,9 @@ func c08RunWith(c *Ctx, writeEntries, sweeps int) {
 	}
 	for round := 0; round < c.N(3, 30); round++ {
 		c08Independence(c, wd, round)
+	}
+	for round := 0; round < c.N(3, 30); round++ {
+		c08WriteFault(c, wd, round)
 	}
 	// every connection has ended but the long-lived servers are still running: apart from their accept loops no
 	// goroutine with a gldap frame may remain (a per-connection helper that outlives its connection is a leak even
